@@ -328,7 +328,7 @@ def rayleigh_bounded_instance():
     from pb_bss.extraction import beamformer as bf, beamformer_wrapper as bw
 
     def make(B):
-        return {'D': B.choose('D', [2, 3, 4, 6, 8]), 'lead': B.choose('lead', [(), (3,), (2, 2)]),
+        return {'D': B.choose('D', [2, 3, 4, 6, 8]), 'lead': B.choose('lead', [(), (3,), (2, 3), (2, 3)]),
                 'use_eig': B.choose('use_eig', [False, True]), 'scaling': B.choose('scaling', [None, 'trace', 'eigenvalue']),
                 'seed': B.choose('seed', list(range(1000))), 'd': B.given('d', np.zeros(1)),
                 'real': B.choose('real', ['none', 'none', 'target', 'noise', 'both']), 'zero_bin': B.choose('zero_bin', [False, False, True])}
@@ -352,6 +352,11 @@ def rayleigh_bounded_instance():
             # sensor axes in column-major memory (Hermitian-transposed views, MATLAB-style arrays): same values
             tgt = np.conj(np.swapaxes(np.ascontiguousarray(np.conj(np.swapaxes(tgt, -1, -2))), -1, -2))
             noi = np.conj(np.swapaxes(np.ascontiguousarray(np.conj(np.swapaxes(noi, -1, -2))), -1, -2))
+        elif inp['seed'] % 3 == 1:
+            # whole arrays in Fortran order (leading axes fastest last), one or both of them
+            tgt = np.asfortranarray(tgt)
+            if inp['seed'] % 2:
+                noi = np.asfortranarray(noi)
         t0, n0 = tgt.copy(), noi.copy()
         res = {'tgt': t0, 'noi': n0, 'probes': cn(20, *lead, D)}
         res['gev'] = bf.get_gev_vector(tgt, noi, use_eig=inp['use_eig'])
